@@ -24,6 +24,10 @@ CHECKS = {
     text="Real YowInterfaceLayer on top of the assembled encryption + protocol layers. step: one outstanding request of each of 16 kinds (ping, last seen, picture, statuses, privacy, group operations, contact sync, media upload), a reply whose id is an unconstrained z3 string and whose type is result/error, delivered twice: success/error callback exactly once iff id matches, with the original request, replay invokes nothing. history: 2 (thorough 3) outstanding requests of solver-chosen kinds x 3 (4) deliveries to solver-chosen targets (incl. unknown ids) in any order. internal: key upload and key fetch registries of the encryption layers.",
     note="Trusted: engine string model, manager stub, reply bodies of documented shape. Reply types other than result/error and histories beyond the bound are outside.",
     technique="symbolic execution of the request registries in the assembled stack (z3 string reply id, solver-chosen histories); concrete replay of every model"),
+ "C15": dict(cat="model_checking", design="4/C15",
+    text="Symbolic execution of the real mediacipher module with HKDF / AES-CBC / HMAC as uninterpreted terms (dec(enc(x))=x) and PKCS7 modelled exactly; the plaintext length L is a solver variable (0..80 quick, 0..4096 thorough; contents and key abstract). Obligations: decrypt(encrypt(p)) == p for every L and kind; the ciphertext term equals the independent reference layout (HKDF iv/key/mac key, always-padded CBC, 10-byte MAC over iv+ct); a flip at any symbolic position of ciphertext or tag, truncation, wrong key or wrong kind raises. Every model is replayed with the real cryptography library and compared byte for byte with ref/mediacipher_ref.py (own HKDF); the repository's fixture vector is checked against both.",
+    note="Trusted: crypto models (ideal-primitive assumption for tamper detection: different MAC inputs give different MACs), PKCS7 model, z3; the real primitives are only exercised on the solver's witnesses and (thorough) every length 0..80.",
+    technique="symbolic execution with cryptographic primitives as uninterpreted functions (z3), symbolic length; concrete differential replay against an independent implementation"),
  "C09": dict(cat="model_checking", design="4/C09",
     text="For every entity class with a documented stanza (57 repository fixtures + hand-written templates for ~45 classes without fixture) the documented stanza becomes a template whose non-discriminator attributes are unconstrained z3 strings / integers (list children 0..3, optional attributes dropped); symbolic execution of fromProtocolTreeNode + toProtocolTreeNode must reproduce the template for all values (classes built from incoming stanzas), and stanzas of sendable classes (built through the constructor with symbolic arguments) must satisfy the codec's typing contract; every path witness also goes through the real encoder/decoder.",
     note="Trusted: template catalogue (documented shapes, discriminators kept concrete, repeated fields tied, sibling jids distinct), engine string model (z3 Strings), z3. The protobuf payload of message stanzas is opaque here (C10).",
